@@ -16,7 +16,7 @@ RULE = ('(a) model-based: G-doc ASTs (safe text policy) over the constructs the 
         'closing #, */_ emphasis, title quote style, two-space or backslash breaks, final newline or not), rendered in MMD and compatibility mode '
         'with smart typography on and off, and compared BYTE FOR BYTE with a reference renderer written from the documentation and the stored '
         'expected files. (b) compositional: for 2..8 blocks from {paragraph, ATX/Setext heading, rule, fenced code, indented code, block quote} '
-        'that do not refer to one another, render(b1..bn) == render(b1) + blank line + ... + render(bn). Non-trivial: (a) AST with >=2 block kinds '
+        'that do not refer to one another, render(b1..bn) == render(b1) + blank line + ... + render(bn). Also: a manual label on the last heading (optionally as the last bytes of the source), tables written without their outer pipes, and the CRLF spelling of code-free sources (must render like the LF spelling). Non-trivial: (a) AST with >=2 block kinds '
         'or inline nesting depth >=2, (b) >=3 blocks of >=2 kinds; distinct by serialised source.')
 ASSUMPTIONS = ['only unambiguous uses are generated (rules listed in pbt/gdoc.py: adjacency of lists/indented code, emphasis delimiters touching words, '
                'no heading-like or metadata-like first line, code lines inside quotes without leading blanks)',
